@@ -6,7 +6,7 @@ PROPS = 'Props/C12.v'
 
 
 def gen_cases(rng, tier):
-    nbig, nsmall, nbam = (12, 150, 30) if tier == 'quick' else (120, 1500, 300)
+    nbig, nsmall, nbam = (4, 70, 20) if tier == 'quick' else (120, 1500, 300)
     cases = []
     for i in range(nbam):
         nref = rng.choice([0, 1, 2, 5, 50, 400, 3000])
@@ -17,6 +17,8 @@ def gen_cases(rng, tier):
         close = rng.random() < 0.7
         n = rng.randrange(2, 5) if big else rng.randrange(2, 12)
         ops = wrlib.gen_script(rng, big, nops=n, close=close, after_close=(close and rng.random() < 0.1))
+        if tier == 'quick':
+            wrlib.cap_total(ops, 2 * wrlib.BS + 700, rng)
         cases.append(dict(mode='rt', ops=ops, level=rng.choice([-1, 0, 1, 9, rng.randrange(-1, 10)]), wc=rng.randrange(0, 5), rd=1,
                           reads=[8192], delay=rng.randrange(1, 100000), hbytes=True))
     return cases
